@@ -190,7 +190,7 @@ func init() {
 			"verdict compares len(Diff)==0, Equals and an independent oracle (ref.Canon / ref.EqPrec) pairwise; CLI: exit status of the three binaries " +
 			"on a sample of the same pairs; non-trivial = operands differ textually; distinct = distinct (a, b, options)",
 		Floors: map[string]int{"oracle_equal": 5000, "oracle_unequal": 5000, "equal_but_textually_different": 2000, "cli_runs": 500,
-			"cli_status_0": 100, "cli_status_1": 100, "same_document_shared_identities": 3000, "cli_with_-color": 100, "a_is_patch_result": 3000, "b_is_patch_result": 3000},
+			"cli_status_0": 100, "cli_status_1": 100, "same_document_shared_identities": 3000, "cli_with_-color": 100, "values_moved_between_keys": 2000, "a_is_patch_result": 3000, "b_is_patch_result": 3000},
 		Assumptions: []string{
 			"oracle: ref.Canon under the reading of the option set; ref.EqPrec for Precision",
 			"SetKeys inputs satisfy the key precondition; MERGE inputs include nulls in the library leg (the biconditional is not restricted to null-free documents), the CLI leg keeps them null-free",
@@ -272,6 +272,38 @@ func init() {
 			},
 		})
 	}
+	p.Strata = append(p.Strata, mon.Stratum{
+		Name: "setkeys-values-moved-between-keys",
+		N:    qt(3000, 150000),
+		Run: func(c *mon.Ctx, i int) {
+			// two documents that differ ONLY in which set key carries which value of one member (swapped, or moved
+			// to the other key). Within each document identities stay unique, so open finding F21 (identity is
+			// the unordered collection of key values) cannot merge members here; the documents differ, so the
+			// diff must say so.
+			r := c.R
+			vals := []any{1.0, 2.0, "x", "y", true}
+			x, y := vals[r.Intn(len(vals))], vals[r.Intn(len(vals))]
+			for ref.Eq(x, y, ref.List) {
+				y = vals[r.Intn(len(vals))]
+			}
+			m1 := map[string]any{"id": x, "k2": y, "v": float64(r.Intn(3))}
+			m2 := map[string]any{"id": y, "k2": x, "v": m1["v"]}
+			if i%3 == 1 {
+				m1 = map[string]any{"id": x, "v": 0.0}
+				m2 = map[string]any{"k2": x, "v": 0.0}
+			}
+			others := []any{map[string]any{"id": "p", "k2": "q", "v": 1.0}, "s", 7.0}[:r.Intn(4)]
+			mk := func(m map[string]any) any {
+				l := append([]any{m}, others...)
+				if i%2 == 1 {
+					return map[string]any{"list": l}
+				}
+				return l
+			}
+			c.Feature("values_moved_between_keys")
+			c05Judge(c, ref.ToJSON(mk(m1)), ref.ToJSON(mk(m2)), OptKeys2, "values-moved-between-keys")
+		},
+	})
 	p.Strata = append(p.Strata, mon.Stratum{
 		Name: "precision-placement",
 		N:    qt(6000, 250000),
